@@ -321,7 +321,7 @@ func runC19(r *Report, tier string) {
 			}
 		}
 	}
-	r.floor("R19.1", n1, 10, "receiver writes in the decoders")
+	r.floorSoft("R19.1", n1, 10, "receiver writes in the decoders")
 
 	// R19.2 stored values
 	for _, D := range decs {
@@ -375,7 +375,7 @@ func runC19(r *Report, tier string) {
 			o.check(ok, why, why)
 		}
 	}
-	r.floor("R19.2", nd, 10, "mode Unmarshal sites on decode paths")
+	r.floorSoft("R19.2", nd, 10, "mode Unmarshal sites on decode paths")
 
 	// R19.3
 	tt := &taint{P: P, memo: map[*ssa.Parameter]string{}, busy: map[*ssa.Parameter]bool{}}
